@@ -63,6 +63,8 @@ def main():
             rec['applies'] = rc == 0
             if rc != 0:
                 rec['note'] = out[-500:]
+                rec['valid'] = False
+                print('%s-%s%d does not apply to the current tree: %s' % (prop, os.environ.get('SEED_TAG', ''), i, out[-200:]))
                 results.append(rec)
                 continue
             rc, out = sh(['go', 'test', '-count=1', '.'], cwd=wt)
